@@ -10,6 +10,7 @@ import (
 	_ "verif/checks/c08"
 	_ "verif/checks/c09"
 	_ "verif/checks/c11"
+	_ "verif/checks/c12"
 	_ "verif/checks/c13"
 	_ "verif/checks/c18"
 )
